@@ -36,7 +36,7 @@ type rwGen struct{ g *engGen }
 func rwDirected(rng *rand.Rand) czCase {
 	pick := func(xs []string) string { return xs[rng.Intn(len(xs))] }
 	lits := []string{"a", "b", "c", "ab", "ac", "abc", "abd", "ba", "aa", "aab", "b", "a", "é", "-"}
-	pre := []string{"a", "ab", `\d`, `\w`, "[ab]", "[^a]", "a{2}", `\d{2}`, "a{2}?", "[ab]{3}", "(?>a{2})", "(?>a+)", "a+", "a*", `\d+`, "a+?", "[^b]{2}", "(?>[ab]*)", ".", `\s`}
+	pre := []string{"a", "ab", `\d`, `\w`, "[ab]", "[^a]", "a{2}", `\d{2}`, "a{2}?", "a{2}", "a{2}?", "[ab]{3}", "(?>a{2})", "(?>a+)", "a+", "a*", `\d+`, "a+?", "[^b]{2}", "(?>[ab]*)", ".", `\s`}
 	tail := []string{"", "b", "c", "bc", "b*", "c+", "[bc]", `\d`, "x", "(?:b|c)", "(b)", "b?", "a", "a*", "$", `\b`, "cd", "d", "(?=c)", `\1`}
 	branch := func() string {
 		switch rng.Intn(6) {
@@ -146,7 +146,11 @@ var rwCorpus = []czCase{
 	{Pattern: `(?i)abc|abd`, Source: "corpus"},
 	{Pattern: `x(?:ab|ac)`, Source: "corpus"},
 	{Pattern: `\w+x|\w+y`, Source: "corpus"},
-	{Pattern: `([ab]{3}b\b||-||b)b?`, Source: "corpus"}, // Empty between two letters: they are not merged, also not later
+	{Pattern: `([ab]{3}b\b||-||b)b?`, Source: "corpus"},
+	// fixed loops of different kinds, both made atomic before the ending walk reduces the alternation again
+	{Pattern: `a{2}?bc+|a{2}?(?:b|c)[bc]|a{2}?abc|a{2}?$b*|aab`, Opts: int32(regexp2.IgnoreCase), CodeGen: true, Source: "corpus"},
+	{Pattern: `a{2}?$b*|a{2}b`, Source: "corpus"},
+	{Pattern: `x(?:a{2}?c|a{2}b|a{2}?d)`, Source: "corpus"}, // Empty between two letters: they are not merged, also not later
 }
 
 // RW_DEBUG=<file>: append every pair that is not certified
@@ -406,6 +410,13 @@ func rwCompare(cs *czCase, pp *rwPrepared, answer string, o *core.Outcome) {
 		f.Key = "Rw:rewrite-changes-result"
 		f.Summary = strings.Replace(f.Summary, "a rewrite the certifier rejects", "a rewrite that is not what the proved model decides", 1)
 		o.Fail = f
+		return
+	}
+	if ks := a.find("ks"); ks != nil && len(ks.args()) == 1 && ks.args()[0].atom == "1" {
+		// an alternation with adjacent branches that start with the same fixed loop in different kinds: what the
+		// second reduction (ending walk, after findAndMakeLoopsAtomic) factors depends on which of them the
+		// auto-atomic pass changed; the model's two readings cover none / all, a mixed outcome is counted here
+		o.Buckets = append(o.Buckets, "residue:fixed-loop-kinds-after-auto-atomic")
 		return
 	}
 	if !pp.directed {
